@@ -11,6 +11,8 @@ from tiv.mutate import M
 from tiv.sem import trace
 
 RULES = {
+    "MEMO": "memo safety (shared, rules/common.py): a memoised function in this property's files (or called from them) is a function of its "
+            "arguments only (no terminal/ambient/receiver state outside the key) and no caller mutates its result in place",
     "R1": "the run-boundary predicate is symmetric and complete: under the renaming upper<->lower (px1<->px2, cluster1<->cluster2, a1<->a2, "
           "a_cluster1<->a_cluster2) its set of disjuncts maps onto itself; it has a colour-change test for each half and, under alpha, both "
           "directions (opaque->transparent, transparent->opaque) for each half; the 'both halves stay transparent' exemption is symmetric",
@@ -61,6 +63,42 @@ def canon(e):
     if isinstance(e, ast.UnaryOp) and isinstance(e.op, ast.Not):
         return ("not", canon(e.operand))
     return ("rel", rels(e))
+
+
+def rule_pixel_pipeline(ck, m, rid):
+    """Order and conditions of the steps that produce the pixels (shared with C03): select the frame, convert to the target mode,
+    then BOX-resize; resampling happens on pixels of the target mode only, and the frame is always selected for animated images."""
+    from tiv.cfg import CFG, fmt_path
+    from tiv.sem import econds
+    grd = m.get(CM, "BaseImage._get_render_data")
+    fns = [grd] + [n for n in ast.walk(grd) if isinstance(n, ast.FunctionDef) and n is not grd]
+    seeks = [c for c in body_walk(grd) if isinstance(c, ast.Call) and isinstance(c.func, ast.Attribute) and c.func.attr == "seek" and norm(c.func.value) == "img"]
+    ck.expect(len(seeks) == 1, f"_get_render_data: expected one `img.seek(...)`, found {len(seeks)}")
+    for c in seeks:
+        cds = econds(grd, c)
+        ck.ob(rid, enclosing_stmt(c), cds == {"self._is_animated"} and [norm(a_) for a_ in c.args] == ["self._seek_position"],
+              f"the frame to render must be selected (`img.seek(self._seek_position)`) whenever the image is animated - found conditions {sorted(cds)}: a PIL image supplied by the caller keeps the "
+              "position of the last render, so any shortcut renders a stale frame", stmt="_get_render_data: img.seek(self._seek_position) iff animated")
+    n_resize = 0
+    for fn in fns:
+        def owner(n):
+            while n is not None and not isinstance(n, (ast.FunctionDef, ast.AsyncFunctionDef, ast.Lambda)):
+                n = getattr(n, "_p", None)
+            return n
+        rs = [c for c in ast.walk(fn) if isinstance(c, ast.Call) and isinstance(c.func, ast.Attribute) and c.func.attr == "resize" and owner(c) is fn]
+        if not rs:
+            continue
+        g = CFG(fn)
+        conv_tests = [n for n in g.nodes if n.kind == "test" and n.ast is not None and ".mode" in norm(n.ast) and any(isinstance(x, ast.Compare) for x in ast.walk(n.ast))]
+        for c in rs:
+            n_resize += 1
+            nodes = g.nodes_of(enclosing_stmt(c))
+            p = g.search([g.entry], lambda n: n in nodes, avoid=lambda n: n in conv_tests, from_succ=False, edge_ok=lambda a, lab, d: not lab.startswith(("e:", "p:")))
+            ck.ob(rid, enclosing_stmt(c), p is None and bool(conv_tests),
+                  f"`{short(c, 50)}` can run before the image has been brought to the target mode ({fmt_path(p) if p else 'no mode test'}): PIL resamples palette/bilevel modes with NEAREST and "
+                  "averages CMYK/HSV/premultiplied-alpha components, so the half-cell colours are no longer the BOX average of the converted pixels", stmt="pixel pipeline: convert to the target mode before resizing")
+            ck.ob(rid, enclosing_stmt(c), len(c.args) >= 2 and norm(c.args[0]) == "size" and norm(c.args[1]).endswith("BOX"), f"the image must be resized to exactly `size` with BOX resampling; found `{short(c, 60)}`", stmt="pixel pipeline: resize(size, BOX)")
+    ck.expect(n_resize >= 1, "_get_render_data: no resize step found")
 
 
 def run(ck, m):
@@ -249,6 +287,11 @@ def run(ck, m):
               stmt=f"_get_render_data: compositing under state-only conditions ({'str alpha' if any('isinstance(alpha, str)' in g and not g.startswith('not') for g in gs) else 'threshold'})")
     thr = next((c for c in comp if any(norm(t) == "round_alpha" and b for t, b in guards(c))), None)
     ck.ob("R4", grd, thr is not None and any(norm(s) == "bg.putalpha(img.getchannel('A'))" for s in enclosing_stmt(thr)._p.body), "thresholded transparency composites over the terminal background and keeps the alpha channel", stmt="_get_render_data: threshold branch composites and keeps alpha")
+
+    rule_pixel_pipeline(ck, m, "R4")
+
+    from rules.common import rule_memo_safety
+    rule_memo_safety(ck, m, "MEMO", "C02")
 
 
 MUTANTS = [
